@@ -36,6 +36,7 @@ type autoInv struct {
 
 // Frame is one activation (top-level function under verification, or an inlined callee).
 type Frame struct {
+	entryReach string // reach right after the requires clauses (used by `option loop-cut-<k>`)
 	hintApplied map[int]bool // `assert before` clauses that met their call site
 	ghostSet   map[string]bool // ghost globals the call being applied may change (applyMods)
 	ghostKnown bool
